@@ -645,14 +645,18 @@ def fx_odd():
     # repeated underscores.  The oracle for these names is the serialised variant itself (recording Serializer),
     # not the table: the published list must contain exactly what the messages serialise under.
     ms = number([
-        M("instantiate", "instantiate", []),
+        # instantiate / migrate handlers whose names carry digits, each with a twin of another kind under the name a
+        # case-conversion round trip would produce (setup2 -> setup_2, migrate_v2 -> migrate_v_2)
+        M("instantiate", "setup2", [("a", U)]),
+        M("exec", "setup_2", [("a", U)]),
+        M("migrate", "migrate_v2", [("a", U)]),
+        M("sudo", "migrate_v_2", [("a", U)]),
         M("exec", "transferFrom", [("amount", U)]),
         M("exec", "_lead", [("a", U)]),
         M("exec", "dbl__under", [("a", U)]),
         M("query", "trail_", [("a", U)]),
         M("exec", "step_2", [("a", U)]),
         M("sudo", "__reset", [("a", U)]),
-        M("sudo", "phase2done", [("a", U)]),
     ])
     return dict(mod="fx_odd", feature="g_digits", contract="Odd", methods=ms, entry_points=False, tier="quick", check_ctor=False, names_known=False,
                 attrs=["#[allow(non_snake_case)]"])
